@@ -37,6 +37,7 @@ structure VLog where
   nodes : List Node
   log : List Entry          -- newest first
   stages : List Nat         -- bottom first (Go: t.stages)
+  lastCp : Nat              -- lastCheckpoint: newest checkpoint handed out by Checkpoint() (0 = zero value, protects nothing)
   len : Int
   size : Int
   dirty : Bool
@@ -47,7 +48,7 @@ structure VLog where
 namespace VLog
 
 def init : VLog :=
-  { nodes := [], log := [], stages := [], len := 0, size := 0, dirty := false,
+  { nodes := [], log := [], stages := [], lastCp := 0, len := 0, size := 0, dirty := false,
     entryLimit := Gen.MemLimits.unlimitedSize, bufLimit := Gen.MemLimits.unlimitedSize }
 
 /-- l.Checkpoint() -/
@@ -104,9 +105,9 @@ def modifyNode (nodes : List Node) (k : Bytes) (f : Node → Node) : List Node :
 def upsertNode (nodes : List Node) (k : Bytes) (f : Node → Node) : List Node := modifyNode (ensureNode nodes k) k f
 
 /-- ART.Set + setValue + trySwapValue (RBT.Set + setValue).  `v = none`: flags only.
-    Counting a key: RBT counts in allocNode and when `flags == 0 && vptr.IsNull() && isDeleted()`; ART counts in setValue when
-    `flags == 0 && vLogAddr.IsNull() || isDeleted()`.  Both mean "the node is new or was marked deleted" — except that
-    ART's condition is also true for an EXISTING live leaf without flags and without value; the model follows RBT there. -/
+    Counting a key: RBT counts in allocNode and when `flags == 0 && vptr.IsNull() && isDeleted()`; ART marks a new leaf in
+    newLeaf and counts in setValue when `isDeleted()`.  Both mean "the node is new or was marked deleted".
+    In-place swap: only behind the top staging mark AND behind `lastCheckpoint` (the newest checkpoint handed out). -/
 def writeCore (m : VLog) (k : Bytes) (v : Option Bytes) (ops : List Nat) : VLog :=
   let dirty0 := m.dirty || m.stages.isEmpty
   let n := (m.findNode k).getD (freshNode k)
@@ -122,7 +123,7 @@ def writeCore (m : VLog) (k : Bytes) (v : Option Bytes) (ops : List Nat) : VLog 
   | some x =>
     -- setValue / trySwapValue
     let oldVal := if n.vptr = 0 then [] else getValue m.log n.vptr
-    let swap := n.vptr != 0 && canModify m.stages.getLast? n.vptr && oldVal.length > 0 && oldVal.length == x.length
+    let swap := n.vptr != 0 && canModify m.stages.getLast? n.vptr && decide (n.vptr > m.lastCp) && oldVal.length > 0 && oldVal.length == x.length
     if swap then
       { m with nodes := upsertNode m.nodes k (fun n => { n with flags := flags', deleted := false }),
                log := swapAt m.log n.vptr x, len := len1, size := size1, dirty := dirty1 }
@@ -155,7 +156,8 @@ def revertVAddr (e : Entry) (rest : List Entry) (nodes : List Node) (len size : 
     (nodes.map (fun n => if n.key = e.key then { n with vptr := e.old } else n), len,
       size1 + ((getValue rest e.old).length : Int))
 
-/-- MemdbVlog.RevertToCheckpoint + Truncate: walk back from the end until the cursor is at `cp` -/
+/-- MemdbVlog.RevertToCheckpoint + Truncate: walk back from the end until the cursor is at `cp`
+    (truncateLastCheckpoint is applied in `revertTo`) -/
 def revertLog (cp : Nat) : List Entry → List Node → Int → Int → List Entry × List Node × Int × Int
   | [], nodes, len, size => ([], nodes, len, size)
   | e :: rest, nodes, len, size =>
@@ -166,7 +168,7 @@ def revertLog (cp : Nat) : List Entry → List Node → Int → Int → List Ent
 
 def revertTo (m : VLog) (cp : Nat) : VLog :=
   let (log', nodes', len', size') := revertLog cp m.log m.nodes m.len m.size
-  { m with log := log', nodes := nodes', len := len', size := size' }
+  { m with log := log', nodes := nodes', len := len', size := size', lastCp := min m.lastCp cp }
 
 def snapCheckpoint (m : VLog) : Nat := match m.stages.head? with | some c => c | none => m.checkpoint
 
@@ -232,7 +234,7 @@ def step (m : VLog) : Op → VLog × Out
       match m.stages.getLast? with
       | some cp => ({ (m.revertTo cp) with stages := m.stages.dropLast }, .ok)
       | none => (m, .ok)
-  | .checkpoint => (m, .num m.checkpoint)
+  | .checkpoint => ({ m with lastCp := m.checkpoint }, .num m.checkpoint)
   | .revert cp =>
     if cp ≤ m.checkpoint && (match m.stages.getLast? with | some c => decide (c ≤ cp) | none => true) then (m.revertTo cp, .ok)
     else (m, .refused)
